@@ -647,8 +647,8 @@ fn cmd_conc_lane(args: &Args) -> i32 {
     };
     let (seed, lane, iters) = (args.u64("seed").unwrap_or(DEFAULT_SEED), args.u64("lane").unwrap_or(0), args.u64("iterations").unwrap_or(1000) as usize);
     let j = match prop.as_str() {
-        "C15" => conc::run_lane::<world_c15::C15>(seed, lane, iters, &dir),
-        "C19" => conc::run_lane::<world_c19::C19>(seed, lane, iters, &dir),
+        "C15" => conc::run_lane::<world_c15::C15>(seed, lane, iters, &dir, args.u64("max-secs").unwrap_or(60)),
+        "C19" => conc::run_lane::<world_c19::C19>(seed, lane, iters, &dir, args.u64("max-secs").unwrap_or(60)),
         _ => return usage(),
     };
     if std::fs::write(&out, j.pretty()).is_err() {
@@ -704,7 +704,7 @@ fn cmd_conc(args: &Args) -> i32 {
             let _ = running.remove(0).wait();
         }
         let mut cmd = std::process::Command::new(&me);
-        cmd.arg("conc-lane").arg("--prop").arg(&prop).arg("--seed").arg(seed.to_string()).arg("--lane").arg(lane.to_string()).arg("--iterations").arg(iters.to_string()).arg("--dir").arg(work.join(format!("sched-{}", lane))).arg("--out").arg(work.join(format!("lane-{}.json", lane)));
+        cmd.arg("conc-lane").arg("--prop").arg(&prop).arg("--seed").arg(seed.to_string()).arg("--lane").arg(lane.to_string()).arg("--iterations").arg(iters.to_string()).arg("--max-secs").arg(args.u64("max-secs").unwrap_or(60).to_string()).arg("--dir").arg(work.join(format!("sched-{}", lane))).arg("--out").arg(work.join(format!("lane-{}.json", lane)));
         cmd.stdout(std::process::Stdio::null()).stderr(std::process::Stdio::null());
         if let Ok(c) = cmd.spawn() {
             running.push(c);
@@ -768,7 +768,7 @@ fn cmd_conc(args: &Args) -> i32 {
         if !reported {
             // the schedule alone is not enough (state carried over from earlier iterations): the whole lane is the replay
             let again = work.join("again.json");
-            let ok = std::process::Command::new(&me).arg("conc-lane").arg("--prop").arg(&prop).arg("--seed").arg(seed.to_string()).arg("--lane").arg(lane.to_string()).arg("--iterations").arg(iters.to_string()).arg("--dir").arg(work.join("again-sched")).arg("--out").arg(&again).status().is_ok()
+            let ok = std::process::Command::new(&me).arg("conc-lane").arg("--prop").arg(&prop).arg("--seed").arg(seed.to_string()).arg("--lane").arg(lane.to_string()).arg("--iterations").arg(iters.to_string()).arg("--max-secs").arg("100000").arg("--dir").arg(work.join("again-sched")).arg("--out").arg(&again).status().is_ok()
                 && read_json(&again).ok().map(|j| j.get("failed").and_then(|x| x.as_bool()) == Some(true) && j.get("violation").and_then(|v| v.get("class")).and_then(|x| x.as_str()) == Some(class.as_str())).unwrap_or(false);
             if ok {
                 let file = replays.join(format!("{}-conc-seed{}-lane{}.json", prop, seed, lane));
